@@ -214,6 +214,8 @@ def stft_case(draw):
     N = spec["n"]
     M = draw(st.one_of(st.integers(1, N), st.sampled_from([1, 2, 3, N, max(1, N // 2)])))
     M = min(M, N)
+    if N > 100:
+        M = min(N, draw(st.sampled_from([1, 2, 7, 16, 64, 250])))  # long signals: few sub-channels (the label model is exact rationals)
     return {"sig": spec, "M": M, "tone_c": draw(st.integers(0, spec["sshape"][0] - 1)), "tone_b": draw(st.integers(-(M // 2), (M - 1) // 2)),
             "data": draw(st.sampled_from(["noise", "tone"]))}
 
